@@ -274,15 +274,15 @@ def get_nmax(shifts):
 
 def shift1d(states, n, *, inplace=False, nmax=None):
     """shift states by n"""
+    crop = 0
     if not inplace:
+        # work on a padded copy (the input is left untouched), crop to the cap after the shift
         ndim = max(states.ndim - 2, 0)
         nstate = (states.shape[-2] - 1) // 2
-        diff = abs(n) if nmax is None else min(abs(n), nmax - nstate)
-        if diff > 0:
-            xp = common.get_array_module()
-            states = xp.pad(states, [(0, 0)] * ndim + [(diff, diff), (0, 0)])
-        elif diff < 0:
-            states = states[..., diff:-diff, :]
+        xp = common.get_array_module()
+        states = xp.pad(states, [(0, 0)] * ndim + [(abs(n), abs(n)), (0, 0)])
+        if nmax is not None:
+            crop = max(nstate + abs(n) - nmax, 0)
 
     if n > 0:
         states[..., n:, 0] = states[..., :-n, 0]
@@ -295,6 +295,8 @@ def shift1d(states, n, *, inplace=False, nmax=None):
         states[..., n:, 0] = 0
         states[..., :-n, 1] = 0
 
+    if crop > 0:
+        states = states[..., crop:-crop, :]
     return states
 
 
